@@ -62,7 +62,40 @@ fn model_case(text: &[u8], model: &Model<'_>, names: &Names, rng: &mut Rng, rep:
     };
     let tg = TextGen { tg: TraceGen { names } };
     for _ in 0..ntr {
-        let lines = tg.lines(rng);
+        let mut lines = tg.lines(rng);
+        // now and then one line is longer than 64 KiB (a message quoting a payload, a
+        // generated file name): its kind, and hence its expected treatment, is unchanged
+        if !lines.is_empty() && rng.chance(1, 100) {
+            let i = rng.below(lines.len());
+            let pad = "x".repeat(*rng.pick(&[65_500usize, 65_536, 70_000]));
+            let l = &mut lines[i];
+            let long = match &mut l.kind {
+                LineKind::Throwable(t) | LineKind::CausedBy(t) => {
+                    match &mut t.message {
+                        Some(m) => {
+                            m.push_str(&pad);
+                            l.text.push_str(&pad);
+                        }
+                        None => {
+                            t.message = Some(pad.clone());
+                            l.text.push_str(": ");
+                            l.text.push_str(&pad);
+                        }
+                    }
+                    true
+                }
+                LineKind::Frame(f) => {
+                    let indent: String = l.text.chars().take_while(|c| c.is_whitespace()).collect();
+                    f.file = Some(format!("{pad}.java"));
+                    l.text = format!("{indent}{}", f.print());
+                    true
+                }
+                LineKind::Opaque => false,
+            };
+            if long {
+                rep.count("traces_with_a_line_longer_than_64KiB", 1);
+            }
+        }
         for l in &lines {
             let k = match &l.kind {
                 LineKind::Throwable(_) => "lines_throwable",
